@@ -53,8 +53,9 @@ from .catalog import build
 
 
 def call(lib_mp, fname, specs, prec, kwargs=None):
-    """evaluate lib_mp.<fname>(*args) at precision prec with exactly built arguments; returns value or raises"""
-    f = getattr(lib_mp, fname)
+    """evaluate lib_mp.<fname>(*args) at precision prec with exactly built arguments; returns value or raises.
+    ``fname`` may also be a callable f(lib_mp, *args, **kwargs) for calls that need keywords / composition."""
+    f = (lambda *a, **k: fname(lib_mp, *a, **k)) if callable(fname) else getattr(lib_mp, fname)
     old = lib_mp.prec
     lib_mp.prec = prec
     try:
